@@ -317,6 +317,7 @@ class Contract:
             prove_clause(I, "%s::call[%s]::requires::" % (caller, self.qual), cl, kind="callsite")
         c.old = I.snapshot()
         I.trace.append(("call", self.qual))
+        I.log.append("applied %s" % self.qual)
         if getattr(self, "assumed", False):
             I.log.append("assumed %s" % self.qual)
         elif getattr(self, "abstraction", None):
@@ -452,6 +453,7 @@ class Result:
         self.inlined = set()
         self.assumed = set()
         self.notes = set()
+        self.callees = set()
 
 
 def verify(con, registry, opts=None, initial=None):
@@ -560,6 +562,8 @@ def verify(con, registry, opts=None, initial=None):
         for l in I.log:
             if l.startswith("inlined "):
                 res.inlined.add(l[8:])
+            elif l.startswith("applied "):
+                res.callees.add(l[8:])
             elif l.startswith("assumed input clause "):
                 res.notes.add(l)
             elif l.startswith("assumed "):
